@@ -109,6 +109,7 @@ type GenesisOptions struct {
 	RtMinPool          uint16   // MinPoolSize scheduling constraint (default = group size)
 	DebondingInterval  uint64   // staking debonding interval in epochs (default 1)
 	RtFunded           bool     // account 1 holds a 700-unit delegation to the runtime's own account (needed for runtime governance)
+	Vault              bool     // a vault (creator account 0, id 1) with balance 100 exists at genesis: admin {a0,a1} threshold 1, suspend {a1}, withdraw policy 60 per 10 blocks for account 1
 
 }
 
@@ -400,6 +401,18 @@ func Genesis(k *Keys, o GenesisOptions) (*genesis.Document, error) {
 		st.Ledger[ra] = &staking.Account{Escrow: staking.EscrowAccount{Active: staking.SharePool{Balance: q(700), TotalShares: q(700)}}}
 		st.Delegations[ra] = map[staking.Address]*staking.Delegation{Addr(k.Accounts[1]): {Shares: q(700)}}
 		total += 700
+	}
+	if o.Vault && len(k.Accounts) > 1 {
+		a0, a1 := Addr(k.Accounts[0]), Addr(k.Accounts[1])
+		v := &vault.Vault{Creator: a0, ID: 1, State: vault.StateActive,
+			AdminAuthority:   vault.Authority{Addresses: []staking.Address{a0, a1}, Threshold: 1},
+			SuspendAuthority: vault.Authority{Addresses: []staking.Address{a1}, Threshold: 1}}
+		doc.Vault.Vaults = []*vault.Vault{v}
+		doc.Vault.States = map[staking.Address]map[staking.Address]*vault.AddressState{
+			v.Address(): {a1: {WithdrawPolicy: vault.WithdrawPolicy{LimitAmount: q(60), LimitInterval: 10}}},
+		}
+		st.Ledger[v.Address()] = &staking.Account{General: staking.GeneralAccount{Balance: q(100), Hooks: map[staking.HookKind]staking.HookDestination{staking.HookKindWithdraw: {Module: vault.ModuleName}}}}
+		total += 100
 	}
 	st.TotalSupply = q(total)
 	if o.ZeroThresholds {
